@@ -71,8 +71,17 @@ def build_model():
     return path
 
 
+SRC_REPORT = {}
+
+
 def build_thm(prop):
-    """lake build Pocket.Thm.<prop>; returns (ok, log)"""
+    """regenerate lean/Pocket/Src/*.lean from /repo's current source (lib/srcfacts.py: the kind predicates, the hex table, the
+    integer constants), then lake build Pocket.Thm.<prop>; returns (ok, log)"""
+    from . import srcfacts
+    try:
+        SRC_REPORT.update(srcfacts.write())
+    except Exception as e:      # the translator itself failed on the current source: the obligations cannot be re-checked
+        return False, 'lib/srcfacts.py could not read the current source: %r' % (e,)
     rc, out = sh(['lake', 'build', 'Pocket.Thm.' + prop], cwd=LEAN)
     return rc == 0, out
 
@@ -326,10 +335,13 @@ class Check:
     def prove(self):
         ok, log = build_thm(self.prop)
         names = ['Pocket.%s.%s' % (self.prop, t) for t in self.theorems]
+        self.extra['translated_from_source'] = {'translated': len(SRC_REPORT.get('translated', [])),
+                                                'untranslatable': SRC_REPORT.get('untranslatable', [])}
         if not ok:
             self.thm_status = {t: None for t in names}
             self.lean_log = log[-3000:]
-            self.violation('proof', 'lake build Pocket.Thm.%s failed' % self.prop,
+            unt = SRC_REPORT.get('untranslatable', [])
+            self.violation('proof', 'lake build Pocket.Thm.%s failed%s' % (self.prop, (' (source no longer translatable: %s)' % '; '.join(unt)[:300]) if unt else ''),
                            ['# theorem module does not build', log[-3000:]], found=False)
             return
         res, out = audit(self.prop, names)
